@@ -254,6 +254,13 @@ fn run(ctx: &mut Ctx) {
             c.count("executions", 1);
         });
     }
+    // 3c. a generic type with a generic and an instance-specific inherent impl block
+    if ctx.mine(799_999) {
+        ctx.case("inherent-overlap", |c| {
+            crate::props::c17::check_inherent_overlap(c, "C01", true);
+            c.count("executions", 1);
+        });
+    }
     // 4. generated multi-package projects
     let np = tier.pick(48u64, 2_000u64) / ctx.nshards as u64 + 1;
     for i in 0..np {
